@@ -221,7 +221,7 @@ def _mk_hdd(M):
                 return True, None, None, None
             st, out = native(chk)
             return {'confirmed': st != 'ok' or not out[0], 'inputs': {'pattern': out[1] if st == 'ok' else None, 'M': M, 'numpy_seed': out[3] if st == 'ok' else None}, 'observed': out[2] if st == 'ok' else out}
-        ps = K.paths(run, [n >= M, n % M == 0, t >= 0, t < n / M], setup)
+        ps = K.paths(run, [n >= M, n % M == 0, t >= 0, t < n / M], setup, expect_loops=True)
         nret = 0
         for p in ps:
             sig = p.signature()
